@@ -176,7 +176,21 @@ func VerifC01_v1simple_handler() {
 		}
 	}
 	out := make(chan Prioritized[int], K)
-	fb := make(chan uint, K)
+	// the feedback channel has room, or it is full and nobody reads it any more (the wrapped discipline is stopped before
+	// the handlers' context is cancelled): then only the cancellation can end the handler's feedback write
+	fbcap := K
+	if vChoose("feedback-stalled", 2) == 1 {
+		fbcap = 0
+	}
+	fb := make(chan uint, fbcap)
+	vOnBlock(fb, func() {
+		if cancelled {
+			vDecline()
+			return
+		}
+		cancelled = true
+		cancel()
+	})
 	var items []int
 	var prios []uint
 	for k := 0; k < K; k++ {
